@@ -912,8 +912,23 @@ def gen_names(rng):
         elif where == "term":
             terms = terms + [TermRule(w, ("S", "w"))]
             rules = [Rule("S", [Alt([T("Ta"), Assign(Ref(("n", w)), "p", "v")])])]
-        else:
-            rules = [Rule("S", [Alt([T("Ta"), T(w)])])]
+        else:       # a reference: plain, named, under sugar, as separator; order w.r.t. other diagnostics
+            v = rng.randrange(7)
+            ref = T(w)
+            if v == 1:
+                ref = Assign(Ref(("n", w)), rng.choice("pb"), "x")
+            elif v == 2:
+                ref = Assign(Ref(("n", w), (rng.choice(["*", "+", "?"]), None)))
+            elif v == 3:
+                ref = Assign(Ref(("n", "Ta"), (rng.choice(["*", "+"]), [w])))
+            asg = [T("Ta"), ref]
+            if v == 4:
+                asg = rng.choice([[T("Nope"), T(w)], [T(w), T("Nope")], [T("STOP"), T(w)], [T(w), T("STOP")]])
+            rules = [Rule("S", [Alt(asg)])]
+            if v == 5:      # only in an unreachable rule, with a Layout rule (AUGL exists)
+                rules = [Rule("S", [Alt([T("Ta")])]), Rule("U", [Alt([T("Tb"), T(w)])]), Rule("Layout", [Alt([T("Tc")])])]
+            elif v == 6:    # undefined inline strings are reported before
+                rules = [Rule("S", [Alt([T(w), T("Ta")])]), Rule("B", [Alt([Assign(Ref(("s", "zz")))])])]
     elif k == 7:    # rule named like a terminal
         rules = [Rule("S", [Alt([T("Ta"), T("Tb")])]), Rule("Tb", [Alt([T("Tc")])])]
         if rng.random() < 0.5:
